@@ -41,8 +41,9 @@ Lemma step_confined prefix st e q :
 Proof.
   intros Hq. unfold unpack_step. destruct st as [f s]. cbn [fst snd]. destruct s; [|reflexivity].
   destruct (entry_ok prefix e) eqn:P; cbn [negb]; [|reflexivity].
+  destruct (UNPACK_SKIPS_LINK_ENTRIES && is_link_entry e); [reflexivity|].
   destruct (UNPACK_SKIPS_MARKER_ENTRIES && is_marker_entry e); [reflexivity|].
-  destruct (has_parent (en_path e)); [reflexivity|]. cbn [fst]. rewrite fs_get_put.
+  destruct (has_parent (en_path e)); [reflexivity|]. destruct (en_kind e); try reflexivity. cbn [fst]. rewrite fs_get_put.
   destruct (path_eqb_spec (normals (en_path e)) q) as [<-|]; [|reflexivity].
   unfold entry_ok in P. apply andb_prop in P. destruct P as [_ P].
   rewrite (normals_under _ _ P) in Hq. discriminate.
@@ -84,8 +85,9 @@ Lemma step_marker prefix st e :
 Proof.
   intros K. unfold unpack_step. destruct st as [f s]. cbn [fst snd]. destruct s; [|reflexivity].
   destruct (entry_ok prefix e); cbn [negb]; [|reflexivity].
+  destruct (UNPACK_SKIPS_LINK_ENTRIES && is_link_entry e); [reflexivity|].
   rewrite K. cbn [andb]. destruct (is_marker_entry e) eqn:M; [reflexivity|].
-  destruct (has_parent (en_path e)) eqn:HP; [reflexivity|]. cbn [fst]. rewrite fs_get_put.
+  destruct (has_parent (en_path e)) eqn:HP; [reflexivity|]. destruct (en_kind e); try reflexivity. cbn [fst]. rewrite fs_get_put.
   destruct (path_eqb_spec (normals (en_path e)) [prefix; MARKER]) as [E|]; [|reflexivity]. exfalso.
   unfold is_marker_entry, last_comp in M. rewrite (no_parent_normals _ HP), E in M. cbn in M. discriminate.
 Qed.
@@ -131,8 +133,9 @@ Lemma step_remove_commute prefix st e :
 Proof.
   unfold unpack_step. destruct st as [f s]. cbn [fst snd]. destruct s; [|reflexivity].
   destruct (entry_ok prefix e) eqn:P; cbn [negb]; [|reflexivity].
+  destruct (UNPACK_SKIPS_LINK_ENTRIES && is_link_entry e); [reflexivity|].
   destruct (UNPACK_SKIPS_MARKER_ENTRIES && is_marker_entry e); [reflexivity|].
-  destruct (has_parent (en_path e)); [reflexivity|]. cbn [fst].
+  destruct (has_parent (en_path e)); [reflexivity|]. destruct (en_kind e); try reflexivity. cbn [fst].
   unfold entry_ok in P. apply andb_prop in P. destruct P as [_ P]. apply normals_under in P.
   unfold fs_put, fs_remove_dir. cbn [filter]. rewrite P. cbn.
   induction f as [|[q c] f IH]; cbn; [reflexivity|].
